@@ -11,6 +11,8 @@ use datafusion_common::{DataFusionError, Result};
 use datafusion_execution::{RecordBatchStream, SendableRecordBatchStream, TaskContext};
 use datafusion_physical_expr::{EquivalenceProperties, LexOrdering, Partitioning, PhysicalExpr};
 use datafusion_physical_plan::execution_plan::{Boundedness, EmissionType, ReplaceChildrenOptions};
+use datafusion_common::config::ConfigOptions;
+use datafusion_physical_plan::filter_pushdown::{ChildPushdownResult, FilterPushdownPhase, FilterPushdownPropagation, PushedDown};
 use datafusion_physical_plan::{DisplayAs, DisplayFormatType, ExecutionPlan, PlanProperties};
 use futures::Stream;
 use std::fmt;
@@ -28,9 +30,11 @@ pub struct SourceStats {
     pub rows: AtomicU64,
     pub errors_pulled: AtomicU64,
     pub finished: AtomicU64,
+    pub filters_accepted: AtomicU64,
+    pub rows_pruned: AtomicU64,
 }
 
-#[derive(Debug)]
+#[derive(Debug, Clone)]
 pub struct SimSourceExec {
     pub name: String,
     schema: SchemaRef,
@@ -38,6 +42,10 @@ pub struct SimSourceExec {
     props: Arc<PlanProperties>,
     pub stats: Arc<SourceStats>,
     projection: Option<Vec<usize>>,
+    /// whether this scan accepts filters pushed down by the physical optimizer (static and dynamic)
+    pub accept_filters: bool,
+    /// accepted filters, evaluated afresh on every batch
+    filters: Vec<Arc<dyn PhysicalExpr>>,
 }
 
 impl SimSourceExec {
@@ -72,7 +80,11 @@ impl SimSourceExec {
             EmissionType::Incremental,
             if unbounded { Boundedness::Unbounded { requires_infinite_memory: false } } else { Boundedness::Bounded },
         );
-        SimSourceExec { name: name.to_string(), schema, scripts, props: Arc::new(props), stats, projection }
+        SimSourceExec { name: name.to_string(), schema, scripts, props: Arc::new(props), stats, projection, accept_filters: false, filters: vec![] }
+    }
+    pub fn with_accept_filters(mut self, yes: bool) -> Self {
+        self.accept_filters = yes;
+        self
     }
     pub fn live_streams(&self) -> i64 {
         self.stats.live_streams.load(Ordering::Relaxed)
@@ -112,6 +124,23 @@ impl ExecutionPlan for SimSourceExec {
     fn with_new_children(self: Arc<Self>, _children: Vec<Arc<dyn ExecutionPlan>>) -> Result<Arc<dyn ExecutionPlan>> {
         Ok(self)
     }
+    fn handle_child_pushdown_result(
+        &self,
+        _phase: FilterPushdownPhase,
+        child_pushdown_result: ChildPushdownResult,
+        _config: &ConfigOptions,
+    ) -> Result<FilterPushdownPropagation<Arc<dyn ExecutionPlan>>> {
+        if !self.accept_filters || child_pushdown_result.parent_filters.is_empty() {
+            return Ok(FilterPushdownPropagation::all_unsupported(child_pushdown_result));
+        }
+        let mut new = self.clone();
+        let n = child_pushdown_result.parent_filters.len();
+        for f in child_pushdown_result.parent_filters {
+            new.filters.push(f.filter);
+        }
+        self.stats.filters_accepted.fetch_add(n as u64, Ordering::Relaxed);
+        Ok(FilterPushdownPropagation { filters: vec![PushedDown::Yes; n], updated_node: Some(Arc::new(new)) })
+    }
     fn execute(&self, partition: usize, _context: Arc<TaskContext>) -> Result<SendableRecordBatchStream> {
         self.stats.live_streams.fetch_add(1, Ordering::Relaxed);
         self.stats.streams_opened.fetch_add(1, Ordering::Relaxed);
@@ -121,6 +150,7 @@ impl ExecutionPlan for SimSourceExec {
             partition,
             Arc::clone(&self.stats),
             self.projection.clone(),
+            self.filters.clone(),
         )))
     }
 }
@@ -134,11 +164,19 @@ pub struct ScriptStream {
     stalled: bool,
     done: bool,
     projection: Option<Vec<usize>>,
+    filters: Vec<Arc<dyn PhysicalExpr>>,
 }
 
 impl ScriptStream {
-    pub fn new(schema: SchemaRef, script: Vec<Step>, part: usize, stats: Arc<SourceStats>, projection: Option<Vec<usize>>) -> Self {
-        ScriptStream { schema, script: script.into_iter(), part, stats, sleeping: None, stalled: false, done: false, projection }
+    pub fn new(
+        schema: SchemaRef,
+        script: Vec<Step>,
+        part: usize,
+        stats: Arc<SourceStats>,
+        projection: Option<Vec<usize>>,
+        filters: Vec<Arc<dyn PhysicalExpr>>,
+    ) -> Self {
+        ScriptStream { schema, script: script.into_iter(), part, stats, sleeping: None, stalled: false, done: false, projection, filters }
     }
 }
 
@@ -186,6 +224,19 @@ impl Stream for ScriptStream {
                         } else {
                             b.project(p)?
                         };
+                    }
+                    // pushed-down filters (static and dynamic) are evaluated afresh on every batch:
+                    // a dynamic filter shows whatever its producer has published by now
+                    for f in &self.filters {
+                        let before = b.num_rows();
+                        let mask = f.evaluate(&b)?.into_array(before)?;
+                        let mask = arrow::array::as_boolean_array(&mask);
+                        b = arrow::compute::filter_record_batch(&b, mask)?;
+                        let pruned = (before - b.num_rows()) as u64;
+                        if pruned > 0 {
+                            self.stats.rows_pruned.fetch_add(pruned, Ordering::Relaxed);
+                            sim::probe_n("probe.rows_pruned_by_pushed_filter", pruned);
+                        }
                     }
                     return Poll::Ready(Some(Ok(b)));
                 }
